@@ -3,7 +3,7 @@ from __future__ import annotations
 
 from typing import Any, Dict, List, Optional
 
-from ..kit import Ctx, calls, calls_target, kw, loops, normal_paths, poly_of, rule, short, stores
+from ..kit import caller_ok, Ctx, calls, calls_target, kw, loops, normal_paths, poly_of, rule, short, stores
 from ..paths import Event, Path
 from ..terms import NONE, Term, key, strip_ver, subterms
 
@@ -84,7 +84,7 @@ def r2(ctx: Ctx) -> None:
 @rule("C17.R3", "components are registered one at a time through the validating method: duplicates and markets without outstanding shares are rejected before the list changes", "T3 guard dominates effect + T1 single writer", floor=3)
 def r3(ctx: Ctx) -> None:
     for w in ctx.cg.writers_of("IndexMarket", "_components"):
-        ok = w.func.qualname in ("IndexMarket.__init__", "IndexMarket._add_market")
+        ok = caller_ok(ctx, w.func, lambda g: g.qualname in ("IndexMarket.__init__", "IndexMarket._add_market"))
         ctx.check(ok, w.func, w.node, "writer of IndexMarket._components", "IndexMarket.__init__ | IndexMarket._add_market", f"{w.func.qualname} ({w.kind} {w.detail})")
     f = ctx.func("IndexMarket._add_market")
     n = 0
